@@ -1,4 +1,4 @@
-mod rng; mod util; mod c17; mod oplist; mod ops; mod amod; mod c03; mod env; mod sigs; mod gen; mod gen_ir_print; mod irdump; mod body; mod c15; mod wmodcoq; mod genattr; mod modrun; mod oracles; mod dbg; mod c18;
+mod rng; mod util; mod c17; mod oplist; mod ops; mod amod; mod c03; mod env; mod sigs; mod gen; mod gen_ir_print; mod irdump; mod body; mod c15; mod wmodcoq; mod genattr; mod modrun; mod oracles; mod dbg; mod c18; mod c11;
 fn main() {
     util::quiet_panics();
     let args: Vec<String> = std::env::args().collect();
@@ -10,6 +10,7 @@ fn main() {
         Some("c15") => c15::main(&args[2..]),
         Some("mod") => modrun::main(&args[2..]),
         Some("dbg") => dbg::main(&args[2..]),
+        Some("c11") => c11::main(&args[2..]),
         Some("c18") => c18::main(&args[2..]),
         _ => { eprintln!("usage: vh <subcommand> ..."); std::process::exit(2) }
     }
